@@ -1,4 +1,4 @@
-\* quick: every ledger of <= 2 postings (pool of 10) x 198 shapes; every directive list of <= 2 (15 directives) x 14 filters
+\* quick: every ledger of <= 2 postings (pool of 10) x 198 shapes; every directive list of <= 2 (15 directives) x 20 filters
 CONSTANTS
   Headers <- HeadersDef
   Pool <- Pool10
